@@ -107,7 +107,7 @@ def parse_value(s):
             return ("d", int(s[st:pos[0]], 16))
         if c == "s":
             pos[0] += 1
-            return ("s", hexstr())          # bytes: a loaded string need not be valid UTF-8 (F27)
+            return ("s", hexstr())          # bytes: a loaded string is shown as its raw bytes
         if c == "[":
             pos[0] += 1; items = []
             if peek() == "]":
@@ -308,64 +308,19 @@ def classes_of(arch, cfg, tyi, v):
     medium, enc, bom, fmt = cfg.split(":")
     cl = set()
     if arch == "json":
-        found = {"nf": False, "nulkey": False, "dbl": False}
-
-        def f(t, x, level, kind):
-            if t[0] == "dbl":
-                found["dbl"] = True
-                if nonfinite(x[1]):
-                    found["nf"] = True
-            if t[0] == "map" and any("\0" in k for k, _ in x[1]):
-                found["nulkey"] = True
-        walk(ty, v, f)
-        if found["nf"]:
-            cl.add("F26")
-        if ty == I("U32") and v[1] > 2 ** 31 - 1:
-            cl.add("F28")
-        if found["nulkey"]:
-            cl.add("F42")
-        if found["dbl"]:
-            cl.add("F40?")
-        if medium == "stream" and enc != "utf8" and any(ord(c) > 127 for s in all_strings(ty, v) for c in s):
-            cl.add("F27")
+        pass
     else:
-        st = {"emptynested": False, "ws": False, "cr": False}
+        st = {"cr": False}
 
         def f(t, x, level, kind):
-            if t[0] in ("vec", "map") and level > 0 and len(x[1]) == 0:
-                st["emptynested"] = True
-            if t[0] == "obj" and level > 0 and all(fk == "a" for _, fk, _ in t[1]):
-                st["emptynested"] = True        # a class with attributes only is a child-less element too
-            if t[0] == "str" and kind == "e":
-                s = x[1]
-                if s and all(c in " \t\n\r" for c in s):
-                    st["ws"] = True
-                if "\r" in s:
-                    st["cr"] = True
+            if t[0] == "str" and kind == "e" and "\r" in x[1]:
+                st["cr"] = True
         walk(ty, v, f)
-        if st["emptynested"]:
-            cl.add("F29")
-        if st["ws"]:
-            cl.add("F29w")
         if st["cr"]:
-            cl.add("F41")
-        if fmt != "c" and fmt[1:] == "0":
-            cl.add("F45")
+            cl.add("J41")
         if medium == "stream" and enc != "utf8" and bom == "0":
-            cl.add("F47")
+            cl.add("J47")
     return cl
-
-
-def ulp_close(a, b, n=3):
-    """doubles (as bit patterns) within n units in the last place"""
-    if a == b:
-        return True
-    if (nonfinite(a) and a & 0xFFFFFFFFFFFFF) or (nonfinite(b) and b & 0xFFFFFFFFFFFFF):
-        return False            # NaN
-
-    def key(x):
-        return -(x & 0x7FFFFFFFFFFFFFFF) if x >> 63 else x
-    return abs(key(a) - key(b)) <= n
 
 
 def same_mod_nan(a, b):
@@ -388,19 +343,6 @@ def same_mod_nan(a, b):
         return eq(parse_value(a[3:]), parse_value(b[3:]))
     except Exception:
         return False
-
-
-def same_but_doubles(x, y):
-    """equal values except for doubles that are within 3 ULP (class F40)"""
-    if x[0] != y[0]:
-        return False
-    if x[0] == "d":
-        return ulp_close(x[1], y[1])
-    if x[0] == "a":
-        return len(x[1]) == len(y[1]) and all(same_but_doubles(a, b) for a, b in zip(x[1], y[1]))
-    if x[0] == "o":
-        return len(x[1]) == len(y[1]) and all(ka == kb and same_but_doubles(a, b) for (ka, a), (kb, b) in zip(x[1], y[1]))
-    return x == y
 
 
 # ------------------------------------------------------------------ independent JSON emitter
@@ -589,15 +531,6 @@ def decode_bytes(b, enc, bom):
         return None
 
 
-# ------------------------------------------------------------------ F27: what "each code unit truncated to a byte" gives
-def f27_view(raw, enc):
-    """the bytes RapidJSON's reader sees when an AutoUTFInputStream is read with UTF8 as source encoding"""
-    body = raw[len(BOM[enc]):] if raw.startswith(BOM[enc]) else raw
-    k = 2 if "16" in enc else 4
-    units = [int.from_bytes(body[i:i + k], "little" if enc.endswith("le") else "big") for i in range(0, len(body) - k + 1, k)]
-    return bytes(u & 0xFF for u in units)
-
-
 def autoutf_detect(b):
     """rapidjson::AutoUTFInputStream::DetectType"""
     if len(b) < 4:
@@ -692,13 +625,13 @@ def nontrivial_value(ty, v):
 
 
 def gen_stage1(rng, tier, arch):
-    n = {"quick": 5000, "thorough": 60000}[tier] if arch == "json" else {"quick": 4000, "thorough": 48000}[tier]
+    n = {"quick": 5000, "thorough": 150000}[tier] if arch == "json" else {"quick": 4000, "thorough": 120000}[tier]
     types = JSON_TYPES if arch == "json" else XML_TYPES
     cases = []
     for i in range(n):
         tyi = types[i % len(types)] if i < 3 * len(types) else rng.choice(types)
         cfg = rand_cfg(rng, arch)
-        v = gen_value(rng, CAT[tyi], arch, 0, nonempty=0.85 if arch == "xml" else 0.0)
+        v = gen_value(rng, CAT[tyi], arch, 0)
         rootkey = "-"
         if arch == "xml" and rng.random() < 0.3:
             rootkey = rand_key(rng, "xml")
@@ -811,7 +744,7 @@ def run_checks(prop, ctx, vlib, want=("C08", "C01")):
         cl = classes_of(arch, c["cfg"], tyi, v)
         if arch == "json" and c["cfg"].startswith("stream") and c["save"].startswith("OK ") and \
                 autoutf_detect(bytes.fromhex(c["save"][3:]) if c["save"][3:] != "-" else b"") != c["enc"]:
-            cl.add("F46")
+            cl.add("J46")
         mchk = c.get("mchk", "?")
         agree = mchk.startswith("AGREE")
         prop_ok = mchk.endswith("PROP ok")
@@ -826,28 +759,11 @@ def run_checks(prop, ctx, vlib, want=("C08", "C01")):
         if not (prop_ok and c01_ok):
             stats["disagreements"] += 1
             # the property fails on the implementation here: a listed known finding must explain it, exactly
-            if crashed and "F45" in cl and "F45" in known_ids:
-                explained = "F45"
-            elif crashed and c["save"] == "CRASH(rc=-6)" and "F42" in cl and "F42c" in known_ids:
-                explained = "F42c"
-            elif agree and load_agree:
-                for fid in ("F26", "F28", "F27", "F46", "F42", "F29", "F29w", "F41", "F47"):
+            if agree and load_agree:
+                for fid in ("J46", "J41", "J47"):
                     if fid in cl and fid in known_ids:
                         explained = fid
                         break
-                if explained is None and "F40?" in cl and "F40" in known_ids and prop_ok and saved and c["load"].startswith("OK "):
-                    try:
-                        if same_but_doubles(value_bytes(v), parse_value(c["load"][3:])):
-                            explained = "F40"
-                    except Exception:
-                        pass
-            elif agree and not load_agree and "F40?" in cl and "F40" in known_ids and prop_ok and c["load"].startswith("OK ") and str(c.get("mload", "")).startswith("OK "):
-                # the model's strtod is the correctly rounded one; RapidJSON's default is within 3 ULP
-                try:
-                    if same_but_doubles(parse_value(c["mload"][3:]), parse_value(c["load"][3:])):
-                        explained = "F40"
-                except Exception:
-                    pass
             if explained:
                 stats["known_class_cases"] += 1
                 bump("known-class " + explained)
@@ -921,7 +837,7 @@ RENDER_OPTS = [dict(ws=0, esc="lit", order=False, spell="keep"),
 
 
 def int_targets_hit(ty, dom_a, dom_b):
-    """an integer-typed position whose spelling changed class between the two DOMs (class F43)"""
+    """an integer-typed position whose spelling changed class between the two DOMs (class J43)"""
     def is_intlex(x):
         return isinstance(x, NumLex) and not any(ch in x for ch in ".eE")
     k = ty[0]
@@ -939,10 +855,31 @@ def int_targets_hit(ty, dom_a, dom_b):
     return False
 
 
+def neg_zero_hit(ty, dom_a, dom_b):
+    """a double-typed position holding zero whose spelling changed between a signed integer spelling (-0) and a
+    fractional one (-0.0): RapidJSON reads the first as the integer 0, the sign of the zero is lost (class J43)"""
+    def is_intlex(x):
+        return isinstance(x, NumLex) and not any(ch in x for ch in ".eE")
+    k = ty[0]
+    if k == "dbl":
+        return isinstance(dom_a, NumLex) and isinstance(dom_b, NumLex) and num_value(dom_a) == 0 and \
+            is_intlex(dom_a) != is_intlex(dom_b) and (dom_a.startswith("-") or dom_b.startswith("-"))
+    if k == "vec" and isinstance(dom_a, tuple) and isinstance(dom_b, tuple) and dom_a[0] == "a" == dom_b[0]:
+        return any(neg_zero_hit(ty[1], x, y) for x, y in zip(dom_a[1], dom_b[1]))
+    if k in ("map", "obj") and isinstance(dom_a, tuple) and isinstance(dom_b, tuple) and dom_a[0] == "o" == dom_b[0]:
+        db = dict(dom_b[1])
+        for key, x in dom_a[1]:
+            if key in db:
+                ft = ty[1] if k == "map" else next((t for n, _, t in ty[1] if n == key), None)
+                if ft is not None and neg_zero_hit(ft, x, db[key]):
+                    return True
+    return False
+
+
 def stage3_json(vlib, impl, model, rng, tier, docs, known_ids, want, bump, stats):
     failing, diffs, notes, samples = [], [], [], []
     per_doc = 2 if tier == "quick" else 4
-    max_docs = 3000 if tier == "quick" else 36000
+    max_docs = 3000 if tier == "quick" else 90000
     docs = docs[:max_docs]
     items = []          # one per load: dict(kind, tyi, medium, enc, bytes, origin, opts)
     parse_lines, parse_expect = [], []
@@ -972,7 +909,7 @@ def stage3_json(vlib, impl, model, rng, tier, docs, known_ids, want, bump, stats
             parse_lines.append("m.parse json utf8 %s" % (t2.encode("utf-8").hex() or "-"))
             parse_expect.append((dom, t2))
     # mutated texts: the reference parser against Python's json (acceptance set)
-    nm = 2000 if tier == "quick" else 24000
+    nm = 2000 if tier == "quick" else 60000
     for _ in range(nm if docs else 0):
         c = rng.choice(docs)
         if "dom" not in c:
@@ -1040,31 +977,13 @@ def stage3_json(vlib, impl, model, rng, tier, docs, known_ids, want, bump, stats
             continue
         stats["disagreements"] += 1
         explained = None
-        f40 = False
-        if "F40" in known_ids:
-            # RapidJSON's default number parsing is within 3 ULP of the correctly rounded double the model uses
-            def close(x, y):
-                try:
-                    return x.startswith("OK ") and y.startswith("OK ") and same_but_doubles(parse_value(x[3:]), parse_value(y[3:]))
-                except Exception:
-                    return False
-            if not agree and close(a, b):
-                agree, f40 = True, True
-            if not same and close(a, ref):
-                same, f40 = True, True
-        nonascii_literal = any(ord(ch) > 127 for ch in it["text"])
         if agree and not same:
             # the property fails (a standard rendering loads differently) exactly as the model of the adapter predicts
-            if it["medium"] == "stream" and it["enc"] != "utf8" and nonascii_literal and "F27" in known_ids:
-                explained = "F27"
-            elif it["medium"] == "stream" and autoutf_detect(it["data"]) != it["enc"] and "F46" in known_ids:
-                explained = "F46"
-            elif o["spell"] == "change" and "F43" in known_ids and int_targets_hit(CAT[c["tyi"]], c["dom"], py_json_parse(it["text"])):
-                explained = "F43"
-            elif o["order"] and "F42" in known_ids and "F42" in classes_of("json", c["cfg"], c["tyi"], c["v"]):
-                explained = "F42"
-        elif agree and same and f40:
-            explained = "F40"
+            if it["medium"] == "stream" and autoutf_detect(it["data"]) != it["enc"] and "J46" in known_ids:
+                explained = "J46"
+            elif o["spell"] == "change" and "J43" in known_ids and (int_targets_hit(CAT[c["tyi"]], c["dom"], py_json_parse(it["text"])) or
+                                                                    neg_zero_hit(CAT[c["tyi"]], c["dom"], py_json_parse(it["text"]))):
+                explained = "J43"
         if explained:
             stats["known_class_cases"] += 1
             bump("known-class " + explained)
@@ -1180,10 +1099,6 @@ ENT = {"&": "&amp;", "<": "&lt;", ">": "&gt;", '"': "&quot;", "'": "&apos;"}
 
 
 def x_text(rng, s, opts):
-    if s and all(c in " \t\n" for c in s):
-        # a white-space-only value stays literal: pugixml drops literal white-space-only character data (finding F29w) but
-        # keeps the same text written with character references or CDATA; the model mirrors the literal case only
-        return s
     if opts["cdata"] and s and "]]>" not in s and "\r" not in s and rng.random() < 0.5:
         return "<![CDATA[" + s + "]]>"
     out = []
@@ -1198,7 +1113,7 @@ def x_text(rng, s, opts):
             out.append(c)
     t = "".join(out)
     if opts["split"] and len(s) >= 2:
-        # character data interrupted by a comment / PI / CDATA boundary (class F44)
+        # character data interrupted by a comment / PI / CDATA boundary (class J44)
         cut = rng.randrange(1, len(s))
         a, b = x_text(rng, s[:cut], dict(opts, split=False, cdata=False)), x_text(rng, s[cut:], dict(opts, split=False, cdata=False))
         mid = rng.choice(["<!--c-->", "<?p d?>", "<!-- -->"])
@@ -1311,7 +1226,7 @@ def pugi_detect(b):
 def stage3_xml(vlib, impl, model, rng, tier, docs, known_ids, want, bump, stats):
     failing, diffs, notes, samples = [], [], [], []
     per_doc = 2 if tier == "quick" else 4
-    docs = docs[:(2500 if tier == "quick" else 30000)]
+    docs = docs[:(2500 if tier == "quick" else 75000)]
     # reference DOM of every produced document
     plines = ["m.parse xml %s %s" % (c["enc"], c["save"][3:]) for c in docs]
     pout = vlib.run_driver(model, plines)
@@ -1362,7 +1277,7 @@ def stage3_xml(vlib, impl, model, rng, tier, docs, known_ids, want, bump, stats)
             diffs.append(dict(driver="jx-model", case="m.parse xml", model=o[:300], rendering=it["text"][:400], judge="HOLD",
                               why="a re-rendering does not have the data model of the original document for the reference parser / ElementTree"))
     # mutated texts: acceptance set against expat
-    nm = 1500 if tier == "quick" else 18000
+    nm = 1500 if tier == "quick" else 45000
     mlines, mexp = [], []
     rends = [it for it in items if it["kind"] == "rerender" and ":" not in it["text"].replace("<?xml", "") and "encoding=" not in it["text"]]
     for _ in range(nm if rends else 0):
@@ -1426,8 +1341,8 @@ def stage3_xml(vlib, impl, model, rng, tier, docs, known_ids, want, bump, stats)
         stats["disagreements"] += 1
         explained = None
         if agree and not same:
-            if o["split"] and "F44" in known_ids:
-                explained = "F44"
+            if o["split"] and "J44" in known_ids:
+                explained = "J44"
         if explained:
             stats["known_class_cases"] += 1
             bump("known-class " + explained)
